@@ -209,6 +209,32 @@ pub fn check_tight(tape: &[u16], rc: &mut RCase) -> Result<(), Failure> {
             n_parties: 3,
         });
     }
+    // one time in three the last earlier resolution fails *late*: its funding is one lovelace short of what
+    // a fresh instance needs, so the rounds that still count a smaller fee succeed (and compile a body) and a
+    // later round fails in selection. A failed resolution must leave as little behind as a successful one.
+    if t.chance(1, 3) {
+        if let Some(last) = history.last_mut() {
+            let probe = |funding: i128, h: &Scenario| {
+                let mut h = h.clone();
+                h.store[0].lovelace = funding;
+                h.store[0].token = 5000;
+                matches!(run_one(&h, &mut pipeline::compiler(&cfg), rounds), Outcome::Ok { .. })
+            };
+            let (mut lo, mut hi) = (0i128, 1i128 << 36);
+            if probe(hi, last) {
+                while hi - lo > 1 {
+                    let mid = (lo + hi) / 2;
+                    if probe(mid, last) {
+                        hi = mid;
+                    } else {
+                        lo = mid;
+                    }
+                }
+                last.store[0].lovelace = hi - 1 - t.pick(3) as i128;
+                rc.label("tight:history_entry_funded_one_short");
+            }
+        }
+    }
     let pay = 1_500_000 + t.pick(500_000) as i128;
     let mk = |funding: i128| {
         let mut outs = vec![];
